@@ -39,5 +39,65 @@ def growthExpC12 (cap : Nat) (ttl tti : Option Nat) (batch : Nat) : Trace → Bo
   | _ :: rest => growthExpC12 cap ttl tti batch rest
   | [] => true
 
+/-- Weight of key `x` in the growth window: the updated key weighs its NEW weight. -/
+def growWeight (before : Snap) (k newW : Nat) (x : Nat) : Nat :=
+  if x == k then newW else weightOfKey before x
+
+/-- Shortest prefix of `order` whose weights (by `w`) reach `need` (`none` if even all of it does
+not). -/
+def shortestPrefixBy (w : Nat → Nat) (need : Nat) : List Nat → Nat → List Nat → Option (List Nat)
+  | rest, got, acc =>
+    if got ≥ need then some acc
+    else match rest with
+      | [] => none
+      | x :: rest' => shortestPrefixBy w need rest' (got + w x) (acc ++ [x])
+
+/-- The check of one growth window of the concurrent cache (see `growthC12Sync`). -/
+def growthSyncOk (cap : Nat) (ttl tti : Option Nat) (wf : Nat → Nat → Nat) (batch : Nat)
+    (before : Snap) (k v : Nat) (after : Snap) : Bool :=
+  let quiet := before.rq == 0 && before.wq == 0 && after.rq == 0 && after.wq == 0
+  let resident := (keysOf before).contains k
+  let newW := wf k v
+  let lives := !(ttl == some 0) && !(tti == some 0)
+  let stillLive := before.entries.all (entryLiveAt ttl tti after.now after.va)
+  let applies := quiet && calm cap ttl tti before && resident && lives && stillLive &&
+    decide (newW ≤ cap) && decide (before.entries.length ≤ batch)
+  !applies ||
+    (let order := (lruOrder before).filter (fun x => x != k) ++ [k]
+     let total := before.ws - weightOfKey before k + newW
+     let victims := match shortestPrefixBy (growWeight before k newW) (total - cap) order 0 [] with
+       | some pre => pre
+       | none => order
+     sameKeys (keysOf after) ((keysOf before).filter (fun x => !victims.contains x)))
+
+/-- C12 on the concurrent cache with maintenance around the operation, growth eviction: windows
+`sync, snap(before), [freq k,] ins k v, [snap,] sync, snap(after)` with empty queues in which `k`
+is RESIDENT in a calm `before` (within capacity, nobody stale) and `v` is not heavier than the
+capacity.  The update makes `k` the most recently used entry and changes the total weight to
+`ws - old + new`; the maintenance run then removes exactly the shortest prefix of the recency
+order (old order without `k`, then `k`) whose weights cover the excess over `cap` — nothing if
+there is none — and nothing else.  (`admitC13Sync` speaks about fresh keys, `recencyC12` about
+the order; no other rule spoke about WHO leaves after an entry of the concurrent cache grew.) -/
+def growthC12Sync (cap : Nat) (ttl tti : Option Nat) (wf : Nat → Nat → Nat) (batch : Nat) :
+    Trace → Bool
+  | (.sync, .ok) :: (.snap, .snap before) :: (.ins k v, .ok) :: (.sync, .ok) ::
+      (.snap, .snap after) :: rest =>
+    growthSyncOk cap ttl tti wf batch before k v after &&
+      growthC12Sync cap ttl tti wf batch ((.sync, .ok) :: (.snap, .snap after) :: rest)
+  | (.sync, .ok) :: (.snap, .snap before) :: (.freq _, .freq _) :: (.ins k v, .ok) :: (.sync, .ok) ::
+      (.snap, .snap after) :: rest =>
+    growthSyncOk cap ttl tti wf batch before k v after &&
+      growthC12Sync cap ttl tti wf batch ((.sync, .ok) :: (.snap, .snap after) :: rest)
+  | (.sync, .ok) :: (.snap, .snap before) :: (.ins k v, .ok) :: (.snap, .snap mid) :: (.sync, .ok) ::
+      (.snap, .snap after) :: rest =>
+    growthSyncOk cap ttl tti wf batch before k v after &&
+      growthC12Sync cap ttl tti wf batch ((.snap, .snap mid) :: (.sync, .ok) :: (.snap, .snap after) :: rest)
+  | (.sync, .ok) :: (.snap, .snap before) :: (.freq _, .freq _) :: (.ins k v, .ok) :: (.snap, .snap mid) ::
+      (.sync, .ok) :: (.snap, .snap after) :: rest =>
+    growthSyncOk cap ttl tti wf batch before k v after &&
+      growthC12Sync cap ttl tti wf batch ((.snap, .snap mid) :: (.sync, .ok) :: (.snap, .snap after) :: rest)
+  | _ :: rest => growthC12Sync cap ttl tti wf batch rest
+  | [] => true
+
 end Spec
 end MiniMoka
